@@ -55,6 +55,7 @@ typedef struct wres {
 	int      finished; // run() returned normally
 	int      failed;   // vs_fail called
 	int      nontrivial;
+	long     cases;
 	long     steps, switches, io_calls;
 	char     outcome[128];
 	char     clause[160];
@@ -828,7 +829,15 @@ void
 vs_nontrivial(void)
 {
 	if (W)
-		W->nontrivial = 1;
+		W->nontrivial++;
+}
+
+// one enumerated case inside a batched execution
+void
+vs_case(void)
+{
+	if (W)
+		W->cases++;
 }
 
 void
@@ -885,7 +894,7 @@ typedef struct shared {
 	int          active;
 	int          stop;
 	long         executions, steps, switches, nontrivial, hangs, nodes,
-	    io_calls;
+	    io_calls, cases;
 	long         level_exec[MAXLEVEL];
 	int          maxdepth;
 	int          nout;
@@ -908,6 +917,7 @@ static struct {
 	double      t0, deadline;
 	char        rundir[256];
 	// accumulated over scenarios
+	long   cases;
 	long   executions, nodes, steps, switches, nontrivial, hangs, states,
 	    transitions, traces, fevals, fnontriv;
 	int    scenarios;
@@ -1006,6 +1016,7 @@ run_one(const vx_cfg *cfg, const item *it, wres *w, int errfd, int watchdog)
 {
 	w->ncp = 0;
 	w->cp_overflow = w->finished = w->failed = w->nontrivial = 0;
+	w->cases = 0;
 	w->steps = w->switches = w->io_calls = 0;
 	w->outcome[0] = w->clause[0] = w->msg[0] = 0;
 	w->loglen = 0;
@@ -1335,8 +1346,8 @@ worker(const vx_cfg *cfg, int wi)
 		S->switches += w->switches;
 		S->io_calls += w->io_calls;
 		S->nodes += ncp;
-		if (w->nontrivial)
-			S->nontrivial++;
+		S->cases += w->cases ? w->cases : 1;
+		S->nontrivial += w->cases ? w->nontrivial : (w->nontrivial ? 1 : 0);
 		if (rc == 5)
 			S->hangs++;
 		if (w->cp_overflow)
@@ -1695,6 +1706,7 @@ vx_explore(const vx_cfg *cfg0, vx_stats *out)
 	G.steps += st.steps;
 	G.switches += st.switches;
 	G.nontrivial += st.nontrivial;
+	G.cases += S->cases;
 	G.hangs += st.hangs;
 	G.scenarios++;
 	if (!st.exhaustive)
@@ -1831,11 +1843,12 @@ vx_finish(void)
 	fprintf(f, "{\"property\":\"%s\",\"tier\":\"%s\",", G.prop, G.tier);
 	fprintf(f,
 	    "\"executions\":%ld,\"choice_nodes\":%ld,\"sched_steps\":%ld,"
-	    "\"switches\":%ld,\"nontrivial\":%ld,\"hangs\":%ld,"
+	    "\"switches\":%ld,\"nontrivial\":%ld,\"cases\":%ld,\"hangs\":%ld,"
 	    "\"bfs_states\":%ld,\"bfs_transitions\":%ld,\"traces\":%ld,"
 	    "\"fault_evaluations\":%ld,\"fault_nontrivial\":%ld,"
 	    "\"scenarios\":%d,\"vacuous_scenarios\":%d,",
-	    G.executions, G.nodes, G.steps, G.switches, G.nontrivial, G.hangs,
+	    G.executions, G.nodes, G.steps, G.switches, G.nontrivial, G.cases,
+	    G.hangs,
 	    G.states, G.transitions, G.traces, G.fevals, G.fnontriv,
 	    G.scenarios, G.vacuous);
 	fprintf(f, "\"exhaustive\":%s,\"determinism_ok\":%s,",
